@@ -1,3 +1,5 @@
+mod c11;
+mod c19;
 mod common;
 mod model;
 mod rec;
@@ -24,7 +26,10 @@ fn main() {
                 usage();
             }
             match p {
-                "C01" | "C02" | "C04" | "C06" | "C07" | "C10" | "C15" => seq_checks::run(p, tier),
+                "C01" | "C02" | "C04" | "C06" | "C07" | "C10" | "C11" | "C15" => {
+                    seq_checks::run(p, tier)
+                }
+                "C19" => c19::run(tier),
                 _ => {
                     eprintln!("unknown property {p}");
                     2
